@@ -103,6 +103,8 @@ def shards(tier):
                 cfgs = [dict(BASE, alpha=a, beta=b, side=side, topo=topo)]
                 cfgs.append(dict(cfgs[0], cur=False))
                 cfgs.append(dict(cfgs[0], w=INITW[1], wunit='rpm'))
+                # the same chain with its relations declared in another order (matings before the joints / last link first)
+                cfgs.append(dict(cfgs[0], order='matings-first' if topo % 2 else 'reverse'))
                 if topo == 1:
                     # a micro-mechanism: every torque and inertia 1e-9 times smaller, written in kNm / kgm^2 (raw values ~1e-14)
                     cfgs.append(dict(cfgs[0], scale=1e-9))
@@ -127,6 +129,8 @@ def check_case(acc, cfg, env_seq, cover, split=None):
         in_unit(spec, cfg['wunit'])
     if cfg.get('scale'):
         spec = menu.scaled(spec, cfg['scale'])
+    if cfg.get('order'):
+        spec['declare_order'] = cfg['order']
     stall = menu.stall_at_output(spec)
     duty = [ENV[i][0] for i in env_seq]
     spec['load'] = ['script', [ENV[i][1] * stall for i in env_seq]]
@@ -170,7 +174,7 @@ def check_case(acc, cfg, env_seq, cover, split=None):
             acc.violation(f'C13/free-chain/{sfx}', clause, case, dd)
         acc.transitions += traj.motion(obs, chain, emit3, info['dts'], info['starts'])
     mot = obs['el'][0]
-    key0 = (cfg['alpha'], cfg['beta'], cfg['side'], cfg['topo'], cfg['cur'], cfg['dt'], cfg.get('wunit'), cfg.get('scale'))
+    key0 = (cfg['alpha'], cfg['beta'], cfg['side'], cfg['topo'], cfg['cur'], cfg['dt'], cfg.get('wunit'), cfg.get('scale'), cfg.get('order'))
     for k in range(n):
         acc.state((key0, k, mot['angular speed'][k], mot['angular acceleration'][k], mot['torque'][k],
                    mot['pwm'][k]))
